@@ -256,9 +256,11 @@ def expr_tokens(e, ctx=0):
                 toks.append(Tok(","))
             toks += expr_tokens(x, 0)
         return toks + [Tok(")")]
+    if k == "rawnum":      # a number literal given as text
+        return [Tok(e["t"])]
     if k == "callx":       # a call whose callee is not a name: `f()(1)`, `a[0](2)`
         o = e["o"]
-        recv = ([Tok("(")] + expr_tokens(o, 0) + [Tok(")")]) if o["k"] in ("num", "bin", "un") else expr_tokens(o, POSTFIX)
+        recv = ([Tok("(")] + expr_tokens(o, 0) + [Tok(")")]) if o["k"] in ("num", "rawnum", "bin", "un") else expr_tokens(o, POSTFIX)
         toks = recv + [Tok("(")]
         for i, x in enumerate(seq(e["as"])):
             if i:
@@ -267,11 +269,11 @@ def expr_tokens(e, ctx=0):
         return toks + [Tok(")")]
     if k == "member":      # `o.m` without a call (only dynamically typed receivers pass the resolver)
         o = e["o"]
-        recv = ([Tok("(")] + expr_tokens(o, 0) + [Tok(")")]) if o["k"] == "num" else expr_tokens(o, POSTFIX)
+        recv = ([Tok("(")] + expr_tokens(o, 0) + [Tok(")")]) if o["k"] in ("num", "rawnum") else expr_tokens(o, POSTFIX)
         return recv + [Tok("."), Tok(e["m"])]
     if k == "mcall":
         o = e["o"]
-        if o["k"] == "num":
+        if o["k"] in ("num", "rawnum"):
             recv = [Tok("(")] + expr_tokens(o, 0) + [Tok(")")]      # `2.abs()` does not lex
         else:
             recv = expr_tokens(o, POSTFIX)
